@@ -268,6 +268,10 @@ def parse_fields(s):
 
 def parse_rvalue(s):
     s = s.strip()
+    if s.startswith('&/*tls*/ '):
+        # address of a thread-local static: state that outlives a call (reported by the static-state scan); executing it is
+        # not supported
+        return ('tls', s[len('&/*tls*/ '):].strip())
     if s.startswith('&'):
         if s.startswith('&raw const '):
             return ('ref', 'raw', parse_place(s, 11)[0])
